@@ -173,6 +173,8 @@ def r3_fmt(text, ctx):
             lit += '\\n'
         h = fmt_hash(lit)
         ctx.fmt[h] = lit
+        ctx.fmt_nargs = getattr(ctx, 'fmt_nargs', {})
+        ctx.fmt_nargs[h] = len(rest)
         # string literals among the arguments become byte arrays
         rest2 = [re.sub(r'"((?:[^"\\]|\\.)*)"', lambda mm: _str_to_bytes_expr(mm.group(1), ctx), a) for a in rest]
         out.append(text[j:m.start()])
